@@ -107,9 +107,13 @@ class Code3(Code2):
                 co_lnotab += bytearray([offset_diff, 127])
                 offset_diff = 0
                 line_diff -= 127
-            if 0 <= line_diff <= 127:
-                # FIXME: should warn about dropping off a line number
-                co_lnotab += bytearray([offset_diff, line_diff])
+            # From Python 3.6 on a line number may also go down: the increment is then a
+            # negative signed byte.  (3.0 - 3.5 cannot express that at all.)
+            while line_diff < -128:
+                co_lnotab += bytearray([offset_diff, 0x80])
+                offset_diff = 0
+                line_diff += 128
+            co_lnotab += bytearray([offset_diff, line_diff & 0xFF])
 
         self.co_lnotab = co_lnotab
 
